@@ -53,3 +53,4 @@ META = dict(
     technique="Lean 4 proof (induction over the series through scan; list induction for the lag loops; case analysis per solver exit) + "
               "differential correspondence + property oracles (budget, non-negativity, storage-discharge relation)",
 )
+READY = True
